@@ -60,6 +60,10 @@ RULE = ("hist: 5 fixed histories (the deliver / restart / deliver program of fin
         "storage.Store interface accepts them: 'Support-Desk', 'ALICE' next to 'alice' (two mailboxes), 'bob+tag', 'carol@Example.COM', 'two words', "
         "'dot.' next to 'dot', non-ASCII, invalid UTF-8, 'a/b', a NUL byte, a 230-byte name — the file store only ever hashes the name, it refuses "
         "none of them (checked on the clean tree); the ordered map keys by the name as given. "
+        "HASH NEIGHBOURHOOD: besides 0/1 and 2 the pool holds a triple (20, 21, 22; found by hashing n<i>) below ONE first-level (3 hex) directory with three "
+        "different second-level (6 hex) ones; 10 fixed histories deliver to one of such a group in lifetime 1, stop (R / X), deliver to ANOTHER of the group - a "
+        "mailbox that does not exist yet - before any walk, then visit, retention scan, visit, stop, visit; the random histories' after-reopen pattern and mailbox "
+        "sets pick such neighbours too (names sharing 6 hex digits but not the hash: only the pair 0/1). "
         "big: restart with LARGE on-disk structures — one mailbox of n messages with nto recipients each (the index entry holds them: 12 x 4000 "
         "recipients = an index.gob of about 1.4 MiB, 4 x 600 = about 70 KiB; thorough also about 4 MiB, 300 x 120 under cap 500, bodies of 1 MiB "
         "and 32 MiB), listed through the live object, through a fresh file.New (must be equal), and again after a MarkSeen + delivery + reopen; "
